@@ -7,6 +7,7 @@ import LbzVerif.Spec.Prefix
 import LbzVerif.Model.Canon
 import LbzVerif.Lemmas.PrefixCanon
 import LbzVerif.Lemmas.TransmitSym
+import LbzVerif.Lemmas.AssignCanon
 
 namespace LbzVerif.Props.C01.Prefix
 open LbzVerif LbzVerif.Spec.Prefix LbzVerif.Lemmas.PrefixCanon LbzVerif.Lemmas.TransmitSym
@@ -43,112 +44,7 @@ theorem canon_prefix_free (lens : List Nat) (hc : Complete lens) (i j : Nat)
 example : Complete [2, 3, 1, 3] := by decide
 
 /-! ## lbzip2's encoder-side code assignment is the canonical code
-
-Helper lemmas for `assign_eq_canon` (the property theorem follows them). -/
-
-theorem cnt_eq_cntL (lens : List Nat) (d : Nat) : cnt lens d = cntL lens d := by
-  simp [cnt, cntL, List.count]
-
-/-- `base_code[]` is `F` reduced mod 2^32, with no side condition. -/
-theorem baseLoop_eq (lens : List Nat) (k depth : Nat) :
-    baseLoop lens k depth (F lens depth % M32) = (List.range' depth k).map (fun d => F lens d % M32) := by
-  induction k generalizing depth with
-  | zero => simp [baseLoop]
-  | succ k ih =>
-    have hstep : ((F lens depth % M32 + cnt lens depth) * 2) % M32 = F lens (depth + 1) % M32 := by
-      rw [F, cnt_eq_cntL]
-      generalize F lens depth = f
-      generalize cntL lens depth = c
-      simp only [M32]
-      omega
-    simp only [baseLoop, hstep, ih, List.range'_succ, List.map_cons]
-
-theorem le_foldl_max (l : List Nat) (acc : Nat) :
-    acc ≤ l.foldl max acc ∧ ∀ x ∈ l, x ≤ l.foldl max acc := by
-  induction l generalizing acc with
-  | nil => simp
-  | cons a t ih =>
-    have h := ih (max acc a)
-    simp only [List.foldl_cons, List.mem_cons]
-    refine ⟨by omega, ?_⟩
-    intro x hx
-    rcases hx with rfl | hx
-    · omega
-    · exact h.2 x hx
-
-theorem le_height (lens : List Nat) (x : Nat) (hx : x ∈ lens) : x ≤ height lens :=
-  (le_foldl_max lens 0).2 x hx
-
-/-- rank of the symbol right after the prefix `pre` -/
-theorem rankIn_prefix (pre : List Nat) (l : Nat) (ls : List Nat) :
-    rankIn (pre ++ l :: ls) pre.length = pre.count l := by
-  unfold rankIn
-  have hi : (pre ++ l :: ls)[pre.length]! = l := by simp
-  rw [hi, ← List.countP_eq_length_filter]
-  have hm : (List.range pre.length).map (fun j => (pre ++ l :: ls)[j]!) = pre := by
-    apply List.ext_getElem
-    · simp
-    · intro i h1 h2
-      simp only [List.length_map, List.length_range] at h1
-      simp [List.getElem?_append_left h1, List.getElem?_eq_getElem h1]
-  have : List.countP (fun j => (pre ++ l :: ls)[j]! == l) (List.range pre.length) =
-      List.countP (· == l) ((List.range pre.length).map (fun j => (pre ++ l :: ls)[j]!)) := by
-    rw [List.countP_map]; rfl
-  rw [this, hm]; rfl
-
-theorem F_lt (lens : List Nat) (hc : Complete lens) (d : Nat) (hd : d ∈ lens) :
-    F lens d < 2 ^ 20 := by
-  obtain ⟨i, hi, rfl⟩ := List.getElem_of_mem hd
-  have h1 := canonCode_rank lens hc i hi
-  have h2 := canonCode_lt lens hc i hi
-  rw [getElem!_of_lt lens i hi] at h1 h2
-  have h3 := (hc.2 _ (List.getElem_mem hi)).2
-  have : 2 ^ lens[i] ≤ 2 ^ 20 := Nat.pow_le_pow_right (by omega) h3
-  omega
-
-theorem assignLoop_inv (lens : List Nat) (hc : Complete lens) (suf pre base : List Nat)
-    (hl : lens = pre ++ suf)
-    (hb : ∀ d ∈ lens, base[d - 1]? = some (F lens d + pre.count d)) :
-    assignLoop suf base = (List.range' pre.length suf.length).map (canonCode lens) := by
-  induction suf generalizing pre base with
-  | nil => simp [assignLoop]
-  | cons l ls ih =>
-    have hi : pre.length < lens.length := by rw [hl]; simp
-    have hli : lens[pre.length]! = l := by rw [hl]; simp
-    have hmem : l ∈ lens := by rw [hl]; simp
-    have hcode : canonCode lens pre.length = F lens l + pre.count l := by
-      rw [canonCode_rank lens hc _ hi, hli]
-      congr 1
-      rw [hl]; exact rankIn_prefix pre l ls
-    have hlt := canonCode_lt lens hc _ hi
-    rw [hli] at hlt
-    have h20 : 2 ^ l ≤ 2 ^ 20 := Nat.pow_le_pow_right (by omega) (hc.2 l hmem).2
-    have hget : base.getD (l - 1) 0 = canonCode lens pre.length := by
-      rw [List.getD_eq_getElem?_getD, hb l hmem, hcode]; rfl
-    simp only [assignLoop, List.length_cons, List.range'_succ, List.map_cons, hget]
-    congr 1
-    have := ih (pre ++ [l]) (base.set (l - 1) ((canonCode lens pre.length + 1) % M32))
-      (by rw [hl]; simp) ?_
-    · rw [this]; simp
-    · intro d hd
-      have hd1 := (hc.2 d hd).1
-      have hl1 := (hc.2 l hmem).1
-      have hmod : (canonCode lens pre.length + 1) % M32 = canonCode lens pre.length + 1 := by
-        apply Nat.mod_eq_of_lt
-        simp only [M32]; omega
-      rw [hmod, List.getElem?_set]
-      by_cases hdl : d = l
-      · subst hdl
-        have hlen : d - 1 < base.length := by
-          have := hb d hd
-          rcases Nat.lt_or_ge (d - 1) base.length with h | h
-          · exact h
-          · rw [List.getElem?_eq_none h] at this; cases this
-        simp [hlen, hcode]; omega
-      · have : l - 1 ≠ d - 1 := by omega
-        rw [if_neg this, hb d hd]
-        simp [List.count_append, List.count_singleton]
-        intro h; exact absurd h.symm hdl
+(lemmas: Lemmas/AssignCanon.lean) -/
 
 /-- lbzip2's encoder-side code assignment (the tail of `assign_codes`: per-depth
 `base_code[]` via `next_code = (next_code + avail) << 1`, then
@@ -157,29 +53,9 @@ every symbol exactly the Spec's canonical code word, for every complete length
 list.  No extra hypothesis (no bound on the alphabet size, `lens = []` is not
 complete). -/
 theorem assign_eq_canon (lens : List Nat) (hc : Complete lens) :
-    Model.Canon.assignCodes lens = (List.range lens.length).map (canonCode lens) := by
-  have h1 : ∀ x ∈ lens, 1 ≤ x := fun x hx => (hc.2 x hx).1
-  have hF1 : F lens 1 = 0 := by simp [F, cntL_zero lens h1]
-  have hbase : baseCodes lens (height lens) =
-      (List.range' 1 (height lens)).map (fun d => F lens d % M32) := by
-    have := baseLoop_eq lens (height lens) 1
-    rw [hF1] at this
-    exact this
-  unfold assignCodes
-  rw [assignLoop_inv lens hc lens [] _ rfl, List.range_eq_range']
-  · simp
-  · intro d hd
-    have hd1 := h1 d hd
-    have hdh := le_height lens d hd
-    have hlt := F_lt lens hc d hd
-    rw [hbase]
-    have hmod : F lens d % M32 = F lens d := Nat.mod_eq_of_lt (by simp only [M32]; omega)
-    have hidx : (List.range' 1 (height lens))[d - 1]? = some d := by
-      rw [List.getElem?_range' (by omega)]; congr 1; omega
-    simp [hidx, hmod]
+    Model.Canon.assignCodes lens = (List.range lens.length).map (canonCode lens) :=
+  Lemmas.AssignCanon.assignCodes_eq_canon lens hc
 
-/-- The hypothesis is satisfiable on a non-trivial table, and the instance also
-evaluates. -/
 example : Model.Canon.assignCodes [2, 3, 1, 3] =
     (List.range [2, 3, 1, 3].length).map (canonCode [2, 3, 1, 3]) :=
   assign_eq_canon [2, 3, 1, 3] (by decide)
